@@ -922,6 +922,188 @@ pub fn check_args(c: &ArgCase) -> Verdict {
     Verdict::Pass(info)
 }
 
+// --------------------------------------------------------------- vanish ---
+
+/// A file that is listed by the traversal (or named explicitly) and then
+/// removed, or truncated to nothing, before ripgrep opens it. Injected by the
+/// `verif-hooks` build of rg (`VERIF_FAULT_BEFORE_OPEN`, crates/core/search.rs).
+#[derive(Clone, Debug, Serialize, Deserialize)]
+pub struct VanishFile {
+    /// 0 = top directory, 1 = sub/, 2 = sub/deep/
+    pub dir: u8,
+    pub matching: bool,
+    /// 0 = untouched, 1 = removed before it is opened, 2 = truncated before it is opened
+    pub fault: u8,
+    /// content beyond one 64 KiB buffer
+    pub big: bool,
+}
+
+#[derive(Clone, Debug, Serialize, Deserialize)]
+pub struct VanishCase {
+    pub files: Vec<VanishFile>,
+    pub mode: Mode,
+    pub threads: u8,
+    pub mmap: bool,
+    /// every file is named on the command line instead of searching `.`
+    pub explicit: bool,
+}
+
+pub fn gen_vanish(t: &mut Tape) -> VanishCase {
+    let n = 2 + t.below(6);
+    let files = (0..n)
+        .map(|_| VanishFile { dir: t.below(3) as u8, matching: t.bool(), fault: t.weighted(&[4, 2, 1]) as u8, big: t.chance(1, 10) })
+        .collect();
+    VanishCase {
+        files,
+        mode: *t.pick(&[Mode::Std, Mode::Count, Mode::List, Mode::Quiet, Mode::Json]),
+        threads: if t.bool() { 1 } else { 4 },
+        mmap: t.bool(),
+        explicit: t.chance(1, 4),
+    }
+}
+
+fn vanish_rel(i: usize, f: &VanishFile) -> String {
+    format!("{}v{i}.txt", ["", "sub/", "sub/deep/"][f.dir.min(2) as usize])
+}
+
+fn vanish_content(i: usize, f: &VanishFile) -> Vec<u8> {
+    let mut v = vec![];
+    if f.big {
+        for k in 0..6000 {
+            v.extend_from_slice(format!("hay line {k}\n").as_bytes());
+        }
+    }
+    if f.matching {
+        v.extend_from_slice(format!("{NEEDLE} {i}\nhay\n").as_bytes());
+    } else {
+        v.extend_from_slice(format!("hay {i}\n").as_bytes());
+    }
+    v
+}
+
+pub fn check_vanish(c: &VanishCase) -> Verdict {
+    if c.mode.is_files() {
+        return Verdict::Reject("--files opens no file");
+    }
+    let jitter = crate::cli::rg_jitter_path();
+    if jitter == crate::cli::rg_path() {
+        return Verdict::Reject("the rg binary with verif-hooks has not been built");
+    }
+    let live = TempDir::new("c15v");
+    let reference = TempDir::new("c15r");
+    let mut spec = vec![];
+    let mut removed: Vec<String> = vec![];
+    for (i, f) in c.files.iter().enumerate() {
+        let rel = vanish_rel(i, f);
+        let content = vanish_content(i, f);
+        live.write(&rel, &content);
+        match f.fault {
+            1 => {
+                spec.push(format!("remove:v{i}.txt"));
+                removed.push(rel.clone());
+            }
+            2 => {
+                spec.push(format!("truncate:v{i}.txt"));
+                reference.write(&rel, b"");
+            }
+            _ => {
+                reference.write(&rel, &content);
+            }
+        }
+    }
+    // (both trees have the same directories, so that an empty directory cannot make a difference)
+    for d in ["sub/deep"] {
+        let _ = std::fs::create_dir_all(live.path.join(d));
+        let _ = std::fs::create_dir_all(reference.path.join(d));
+    }
+    let mk = |cwd: &Path, faulted: bool| {
+        let mut rg = Rg::new(cwd)
+            .args(["--no-config", "--color", "never", "--no-ignore-parent"])
+            .arg(format!("-j{}", c.threads))
+            .arg(if c.mmap { "--mmap" } else { "--no-mmap" })
+            .args(c.mode.flags())
+            .args(["-e", NEEDLE]);
+        if faulted {
+            rg = rg.program(&jitter).env("VERIF_FAULT_BEFORE_OPEN", &spec.join(","));
+        }
+        if c.explicit {
+            for (i, f) in c.files.iter().enumerate() {
+                // the reference tree lacks the removed files: naming them there would be a different fault
+                if faulted || f.fault != 1 {
+                    rg = rg.arg(vanish_rel(i, f));
+                }
+            }
+            rg
+        } else {
+            rg.arg(".")
+        }
+    };
+    if c.explicit && c.files.iter().all(|f| f.fault == 1) {
+        return Verdict::Reject("every explicit file is removed: the reference run would have no path argument");
+    }
+    let (r, rcmd) = run_twice_on_timeout(&|| mk(&reference.path, false));
+    let (o, cmd) = run_twice_on_timeout(&|| mk(&live.path, true));
+    if r.timed_out || o.timed_out {
+        return Verdict::Reject("watchdog expired twice (inconclusive)");
+    }
+    let describe = |msg: String| {
+        Fail::new(format!(
+            "{msg}\n case: {}\n faulted run: VERIF_FAULT_BEFORE_OPEN={} <rg built with --features verif-hooks> {cmd}\n   status {:?}\n   stdout={}\n   stderr={}\n reference run (tree without the removed files, truncated files empty): {rcmd}\n   status {:?}\n   stdout={}\n   stderr={}",
+            serde_json::to_string(c).unwrap_or_default(),
+            spec.join(","),
+            o.status,
+            clip(&o.stdout),
+            clip(&o.stderr),
+            r.status,
+            clip(&r.stdout),
+            clip(&r.stderr)
+        ))
+    };
+    if !r.stderr.is_empty() || !(r.status == Some(0) || r.status == Some(1)) {
+        return Verdict::Fail(describe("the fault-free reference run reports an error".into()));
+    }
+    let any = r.status == Some(0);
+    // -q stops at the first match: the files behind it are never opened
+    let stops_early = c.mode.is_quiet() && any;
+    let (want, got) = match (normalise(c.mode, &r.stdout), normalise(c.mode, &o.stdout)) {
+        (Ok(a), Ok(b)) => (a, b),
+        (Err(e), _) | (_, Err(e)) => return Verdict::Fail(describe(e)),
+    };
+    if want != got {
+        return Verdict::Fail(describe("a file vanishing (or being emptied) between listing and opening changed the results of the other files".into()));
+    }
+    let stderr = String::from_utf8_lossy(&o.stderr).into_owned();
+    let lines: Vec<&str> = stderr.lines().collect();
+    for l in &lines {
+        if !removed.iter().any(|p| names(l, p)) {
+            return Verdict::Fail(describe(format!("stderr line {l:?} names none of the removed files {removed:?}")));
+        }
+    }
+    if !stops_early {
+        for p in &removed {
+            let n = lines.iter().filter(|l| names(l, p)).count();
+            if n != 1 {
+                return Verdict::Fail(describe(format!("the removed file {p} is named by {n} diagnostics, expected exactly one")));
+            }
+        }
+    }
+    let errors = if stops_early { !lines.is_empty() } else { !removed.is_empty() };
+    let want_status = expected_status(c.mode, any, errors);
+    if o.status != Some(want_status) {
+        return Verdict::Fail(describe(format!("exit status {:?}, expected {want_status} (match found: {any}, files removed before opening: {})", o.status, removed.len())));
+    }
+    let mut info = Info::new(!removed.is_empty() && any);
+    info.class_if(!removed.is_empty(), "file_removed_before_open");
+    info.class_if(c.files.iter().any(|f| f.fault == 2), "file_truncated_before_open");
+    info.class_if(c.files.iter().any(|f| f.fault == 2 && f.matching), "truncated_file_would_have_matched");
+    info.class_if(c.files.iter().any(|f| f.fault != 0 && f.big), "faulted_file_over_64KiB");
+    info.class_if(c.explicit, "files_named_explicitly");
+    info.class_if(c.mmap, "mmap");
+    info.class_if(stops_early, "quiet_stops_at_first_match");
+    info.class(mode_class("vanish", c.mode, c.threads));
+    Verdict::Pass(info)
+}
+
 // ------------------------------------------------------------------ pipe ---
 
 #[derive(Clone, Debug, Serialize, Deserialize)]
@@ -1212,7 +1394,7 @@ impl ShrinkBudget {
 
 pub fn run(pc: &PropCtx) {
     pc.rule(
-        "faults: generated tree (<= 4 dirs, <= 7 files, <= 3 symlinks; each file matches with a generated density; each entry is mode 000 / dangling with a generated density), one of 7 modes (standard, -c, -l, -q, --files, --json, --files -q), -j1 or -j4, -L or not, root '.' or every top-level entry given explicitly, optional nonexistent / unreadable explicit paths; rg runs as uid 65534. Oracle: status from the documented decision table, stderr names exactly the faulty entries, stdout equals a fault-free run on the tree minus the faulty entries (itself checked against a record-count model). Non-trivial = the run has both a matching (listed) file and a faulty entry. | args: enumeration of invalid regex / glob / encoding / flag / flag value x mode x threads x position; status 2, empty stdout, diagnostic. | pipe: fault-free tree, stdout closed after k bytes for every k in 0..=len when len <= 320 (thorough: 4096), else 24 buffer-size related k plus sampled k up to 64 in total, outputs up to several hundred KiB; status 0 (1 if nothing matches), empty stderr, termination within a 10 s watchdog (a timeout counts only if a second run with 30 s also expires). Non-trivial = something is printed",
+        "faults: generated tree (<= 4 dirs, <= 7 files, <= 3 symlinks; each file matches with a generated density; each entry is mode 000 / dangling with a generated density), one of 7 modes (standard, -c, -l, -q, --files, --json, --files -q), -j1 or -j4, -L or not, root '.' or every top-level entry given explicitly, optional nonexistent / unreadable explicit paths; rg runs as uid 65534. Oracle: status from the documented decision table, stderr names exactly the faulty entries, stdout equals a fault-free run on the tree minus the faulty entries (itself checked against a record-count model). Non-trivial = the run has both a matching (listed) file and a faulty entry. | args: enumeration of invalid regex / glob / encoding / flag / flag value x mode x threads x position; status 2, empty stdout, diagnostic. | vanish: 2-7 files in up to three directory levels, each removed or truncated to nothing (generated) between being listed and being opened (fault injected by the verif-hooks build of rg), 5 modes, -j1/-j4, mmap or not, '.' or every file named explicitly; stdout must equal a run on the tree without the removed files and with the truncated ones empty, stderr must name exactly the removed files once each, status from the decision table. | pipe: fault-free tree, stdout closed after k bytes for every k in 0..=len when len <= 320 (thorough: 4096), else 24 buffer-size related k plus sampled k up to 64 in total, outputs up to several hundred KiB; status 0 (1 if nothing matches), empty stderr, termination within a 10 s watchdog (a timeout counts only if a second run with 30 s also expires). Non-trivial = something is printed",
     );
     pc.assume("the harness is root and rg runs with uid/gid 65534, so mode-000 entries really fail with EACCES");
     pc.assume("/proc/self/mem can be opened by its own process and the first read fails with EIO (used as 'a path whose read fails')");
@@ -1222,7 +1404,7 @@ pub fn run(pc: &PropCtx) {
     let all_k_limit: u32 = pc.tier.pick(320, 4096);
     pc.bound("pipe.all_k_limit", serde_json::json!(all_k_limit));
     pc.bound("pipe.sampled_k", serde_json::json!(64));
-    pc.note("not reached at CLI level: files removed or truncated between listing and opening (needs a hook in the walker/searcher boundary); closed pipe combined with a per-file fault (the property does not say which status wins)");
+    pc.note("not reached: a file truncated while it is being read (after it was opened); closed pipe combined with a per-file fault (the property does not say which status wins)");
 
     let n_faults = pc.tier.pick(3_000, 60_000);
     let budget = ShrinkBudget::new(Duration::from_secs(30));
@@ -1235,6 +1417,12 @@ pub fn run(pc: &PropCtx) {
         crate::runner::Tier::Quick => args.into_iter().enumerate().filter(|(i, _)| i % 5 == 0).map(|(_, c)| c).collect(),
     };
     pc.run_enum("args", args.into_iter(), check_args);
+
+    let n_vanish = pc.tier.pick(600, 12_000);
+    pc.run_tape("vanish", n_vanish, (8, 60), gen_vanish, check_vanish);
+    for c in ["file_removed_before_open", "file_truncated_before_open", "truncated_file_would_have_matched", "files_named_explicitly"] {
+        pc.require_class(&format!("vanish:{c}"), pc.tier.pick(20, 400));
+    }
 
     let n_pipe = pc.tier.pick(160, 3_200);
     let budget = ShrinkBudget::new(Duration::from_secs(60));
@@ -1285,6 +1473,10 @@ pub fn replay(_pc: &PropCtx, sub: &str, case: &serde_json::Value) -> Result<Verd
         "pipe" => {
             let c: PipeCase = serde_json::from_value(case.clone()).map_err(|e| e.to_string())?;
             Ok(check_pipe(&c))
+        }
+        "vanish" => {
+            let c: VanishCase = serde_json::from_value(case.clone()).map_err(|e| e.to_string())?;
+            Ok(check_vanish(&c))
         }
         other => Err(format!("unknown subcheck {other}")),
     }
